@@ -38,7 +38,7 @@ Reset == /\ Ev.e = "reset" /\ Consume
          /\ enq' = [c \in Chans |-> <<>>] /\ queue' = [c \in Chans |-> <<>>]
          /\ sending' = [c \in Chans |-> NoPiece] /\ wire' = <<>>
          /\ recving' = [c \in Chans |-> <<>>] /\ dlv' = [c \in Chans |-> <<>>]
-         /\ last' = [op |-> "init"]
+         /\ cut' = FALSE /\ last' = [op |-> "init"]
          /\ hs' = [c \in Chans |-> <<>>]
 
 SendOk == /\ Ev.e = "send" /\ Ev.ok /\ Consume
@@ -80,5 +80,5 @@ Accepted == /\ PrintT(ToJson([consumed |-> TLCGet(1) - 1, lines |-> Len(TraceLog
             /\ TLCGet(1) = Len(TraceLog) + 1
 ASSUME TLCSet(1, 0)
 
-TraceView == <<enq, queue, sending, wire, recving, dlv, l, hs>>
+TraceView == <<enq, queue, sending, wire, recving, dlv, cut, l, hs>>
 =============================================================================
